@@ -45,7 +45,7 @@ impl Prop for C11 {
         "exploration"
     }
     fn rule(&self) -> String {
-        "complete enumeration: suites x (n,t) x id kinds x EVERY repaired identifier (each existing participant, three new ones) x EVERY helper set with t<=|H| not containing the target, through the three parts via the crate wrappers; refusals (|H|=t-1, every duplicated position, caller omitted); tiny field: EVERY blinding vector. Non-trivial = part3 produced a key package".into()
+        "complete enumeration: suites x (n,t) x id kinds x EVERY repaired identifier (each existing participant, three new ones) x EVERY helper set with t<=|H| not containing the target, through the three parts via the crate wrappers; refusals (|H|=t-1, every duplicated position, caller omitted); large helper sets (59 helpers; t = n-1 = 29); tiny field: EVERY blinding vector. Non-trivial = part3 produced a key package".into()
     }
     fn assumptions(&self) -> Vec<String> {
         vec!["blinding values on real curves are seeded streams; all values only on the tiny field".into()]
